@@ -22,8 +22,13 @@ func NewEngine(prog *ssa.Program, cfg Config) *Engine {
 	e.registerHTTP()
 	e.registerJSON()
 	e.registerMisc()
+	for _, r := range extraRegs {
+		r(e)
+	}
 	return e
 }
+
+var extraRegs []func(e *Engine)
 
 func (e *Engine) lookupIntrinsic(fn *ssa.Function, key string) (intrFn, bool) {
 	if in, ok := e.intrinsics[key]; ok {
@@ -429,7 +434,7 @@ func (p *Path) fmtValue(v Value, verb byte, site ssa.Instruction) StrV {
 			return pv.Msg
 		}
 		if types.Implements(iv.T, errType().Underlying().(*types.Interface)) {
-			fn := p.E.Prog.LookupMethod(iv.T, nil, "Error")
+			fn := p.lookupMethod(iv.T, nil, "Error")
 			if fn != nil {
 				r := p.callFn(fn, []Value{iv.V}, nil, site)
 				return r.(StrV)
@@ -513,7 +518,7 @@ func (e *Engine) registerMisc() {
 			return ev.Wrapped
 		}
 		if iv.T != nil {
-			if fn := p.E.Prog.LookupMethod(iv.T, nil, "Unwrap"); fn != nil {
+			if fn := p.lookupMethod(iv.T, nil, "Unwrap"); fn != nil {
 				return p.callFn(fn, []Value{iv.V}, nil, site)
 			}
 		}
@@ -725,17 +730,29 @@ func (p *Path) parseInt(s StrV, bits int, site ssa.Instruction) Value {
 	neg := smt.And(smt.Ge(n, smt.Int(1)), smt.Eq(b0, smt.Int('-')))
 	start := smt.Ite(hasSign, smt.Int(1), smt.Int(0))
 	valid := []*smt.Term{smt.Gt(n, start)}
+	// the accumulator is threaded through fresh variables so that the printed
+	// formula stays linear in L (terms are trees: no sharing when printed)
+	startV := p.fresh("pstart", smt.SInt)
+	p.assert(smt.Eq(startV, start))
+	start = startV
+	valid[0] = smt.Gt(n, start)
 	acc := smt.Int(0)
 	for k := 0; k < L; k++ {
 		kk := smt.Int(int64(k))
 		in := smt.And(smt.Le(start, kk), smt.Lt(kk, n))
 		b := p.byteAt(s, kk)
+		if !b.IsInt() && b.Op != "select" {
+			bv := p.fresh("pb", smt.SInt)
+			p.assert(smt.Eq(bv, b))
+			b = bv
+		}
 		isd := smt.And(smt.Ge(b, smt.Int('0')), smt.Le(b, smt.Int('9')))
 		valid = append(valid, smt.Implies(in, isd))
-		acc = smt.Ite(in, smt.Add(smt.Mul(acc, smt.Int(10)), smt.Sub(b, smt.Int('0'))), acc)
+		next := p.fresh("pacc", smt.SInt)
+		p.assert(smt.Eq(next, smt.Ite(in, smt.Add(smt.Mul(acc, smt.Int(10)), smt.Sub(b, smt.Int('0'))), acc)))
+		acc = next
 	}
-	mag := p.fresh("mag", smt.SInt)
-	p.assert(smt.Eq(mag, acc))
+	mag := acc
 	lim := smt.BigInt(pow2(bits - 1))
 	inRange := smt.Ite(neg, smt.Le(mag, lim), smt.Lt(mag, lim))
 	syntaxOK := smt.And(valid...)
